@@ -4,6 +4,7 @@ import BU.Spec.Taproot
 import BU.Spec.CurveLaws
 import BU.Model.Taproot
 import BU.Proofs.SchnorrLemmas
+import BU.Proofs.CurveLawsFinal
 /-!
 # C07 — taproot Schnorr signatures verify for the committed output key or leaf key
 
@@ -221,5 +222,22 @@ theorem sig_length (sha256 : Bytes → Bytes) (hlen : ∀ b, (sha256 b).length =
   · refine ⟨fun h1 => absurd h1 h0, fun _ => ⟨?_, hlt, ?_⟩⟩
     · rw [h]; simp [hl]
     · rw [h]; simp
+
+/-! ### without hypotheses: `CurveLaws` is proved (`BU/Proofs/CurveLawsFinal.lean`) -/
+
+theorem keypath_key_matches_unconditional (d : Nat) (hd : 1 ≤ d ∧ d < n) (t : Nat) (ht : t < 2 ^ 256)
+    (x y : Nat) (hP : mul G d = some (x, y))
+    (q : Bytes) (odd : Bool) (hq : tweakPubkey (beBytes 32 x ++ beBytes 32 y) t = .ok (q, odd)) :
+    ∃ d', tweakPrivkey (beBytes 32 d) t = .ok (beBytes 32 d') ∧ d' < n ∧
+      ∃ qx qy, mul G d' = some (qx, qy) ∧ q.take 32 = beBytes 32 qx ∧ odd = (qy % 2 ≠ 0) :=
+  keypath_key_matches CurveLawsFinal.curveLaws d hd t ht x y hP q odd hq
+
+theorem keypath_sig_verifies_unconditional (sha256 : Bytes → Bytes) (hlen : ∀ b, (sha256 b).length = 32)
+    (T : Tables) (d : Nat) (hd : 1 ≤ d ∧ d < n) (x y : Nat) (hP : mul G d = some (x, y))
+    (s : Scripts) (digest : Bytes) (ht : Nat) (sig : Bytes) (q : Bytes) (odd : Bool)
+    (hq : toTaproot sha256 T (beBytes 32 x ++ beBytes 32 y) s = .ok (q, odd))
+    (hs : signTaproot sha256 T (beBytes 32 d) (beBytes 32 x ++ beBytes 32 y) digest ht s true = .ok sig) :
+    bip340Verify sha256 digest q (sig.take 64) = true :=
+  keypath_sig_verifies CurveLawsFinal.curveLaws sha256 hlen T d hd x y hP s digest ht sig q odd hq hs
 
 end C07
